@@ -6,7 +6,5 @@ pub assume_specification [i64::unsigned_abs] (x: i64) -> (r: u64)
     ensures r as int == if x >= 0 { x as int } else { -(x as int) };
 pub assume_specification [i128::unsigned_abs] (x: i128) -> (r: u128)
     ensures r as int == if x >= 0 { x as int } else { -(x as int) };
-// uN::to_le_bytes / from_be_bytes have const-generic array signatures that assume_specification cannot name (R5)
-#[verifier::external_body] pub fn u64_to_le_bytes(x: u64) -> (r: [u8; 8]) ensures r@ == le64(x) { x.to_le_bytes() }
 pub assume_specification [<i64 as TryFrom<u64>>::try_from] (x: u64) -> (r: std::result::Result<i64, <i64 as TryFrom<u64>>::Error>)
     ensures r.is_ok() <==> x <= i64::MAX, r matches Ok(v) ==> v == x;
